@@ -230,7 +230,7 @@ func vectorMixture(p ThreadPool, size int, seed int64) result {
 		}
 	}}
 	mk := func(mu float64) VectorEstimator {
-		v, err := vectorEstimator.NewNormalEstimator([]float64{mu, mu}, []float64{2, 0, 0, 2}, 1e-3)
+		v, err := vectorEstimator.NewNormalEstimator([]float64{mu, mu}, []float64{2, 0, 0, 2}, 0.25)
 		if err != nil {
 			panic(err)
 		}
@@ -240,7 +240,9 @@ func vectorMixture(p ThreadPool, size int, seed int64) result {
 	if err != nil {
 		return result{Err: "construct: " + err.Error()}
 	}
-	xs := make([]ConstVector, size+3)
+	// enough observations per component to stay away from singular covariance estimates: at the edge
+	// of singularity the reduction order alone decides whether the estimate is positive definite
+	xs := make([]ConstVector, size+12)
 	for i := range xs {
 		xs[i] = NewDenseFloat64Vector(normalData(rng, 2))
 	}
